@@ -7,7 +7,7 @@ Histories are handled by induction, not enumeration:
   use    for an arbitrary well-formed key, decrypt(encrypt(m, fixed pattern)) = m; decrypt_master likewise; setup's post-state is the
          parameter relation assumed everywhere (pairing = e(g2, g1), g1 = alpha*g, msk = alpha*g2)
 Slot shapes are enumerated (l <= 3 quick, l <= 4 thorough); all attribute values (any 256-bit integers), randomness and group elements are
-symbolic.  (adjust_nondelegable is decided under C14 and counted there.)
+symbolic.  adjust_nondelegable as a step: the obligations of C14 (adjust == qualification from scratch, l <= 2 quick / 3 thorough) are registered here too.
 """
 import sys
 import os
@@ -270,6 +270,18 @@ def register(chk, maxl=None):
                         d = describe(pattern, shape, omit_all, sig)
                         chk.add("qualifykey:" + d, ob_qualify, l, pattern, shape, omit_all, sig, False)
                         chk.add("nondelegable_qualifykey:" + d, ob_qualify, l, pattern, shape, omit_all, sig, True)
+    # non-delegable adjustment as an inductive step: from WF(parent pattern + from) it returns WF(parent pattern + to).  Same obligations as C14's
+    # (adjust == re-qualification from scratch), registered here because the statement of C11 counts adjustment among the history steps.
+    import c14
+    for l in range(0, min(maxl, 2 if chk.tier == "quick" else 3) + 1):
+        for pattern in wkd.parent_patterns(l):
+            for fs in wkd.list_shapes(pattern):
+                for ts in wkd.list_shapes(pattern):
+                    for fo, to_ in ((False, False), (False, True), (True, False), (True, True)):
+                        if (fo or to_) and l > 1 and chk.tier == "quick" and "fixed" in pattern:
+                            continue
+                        chk.add("adjust_nondelegable:parent=%s:from=%s:to=%s:omit=%d%d" % (",".join(pattern) or "-", ",".join(fs) or "-", ",".join(ts) or "-", fo, to_),
+                                c14.ob_adjust_nondelegable, l, pattern, fs, ts, True, fo, to_)
 
 
 def main(argv=None):
